@@ -129,6 +129,8 @@ class GridDistortion:
                         (data['yp'] - data['yr'])**2)
         rp = np.sqrt(data['xp']**2 + data['yp']**2)
 
-        data['max_distortion'] = np.max(100 * delta / rp)
+        # the central grid point (odd num_points) has no relative distortion
+        with np.errstate(invalid='ignore', divide='ignore'):
+            data['max_distortion'] = np.nanmax(100 * delta / rp)
 
         return data
